@@ -51,7 +51,7 @@ def main():
         bad = L.grep_forbidden()
         if bad:
             proof_ok = False; ck.notes.append('forbidden constructs: ' + '; '.join(bad[:10]))
-        aok, axioms, alog = L.audit_theorems(modules[0], spec['theorems'])
+        aok, axioms, alog = L.audit_theorems(modules[0], spec['theorems'], modules[1:])
         ck.axioms = axioms
         ck.discharged = sum(1 for t, ax in axioms.items() if ax is not None and all(x in L.ALLOWED_AXIOMS for x in ax))
         if not aok:
